@@ -386,7 +386,9 @@ func ApplyEvent(e *zerolog.Event, ops []Op) *zerolog.Event {
 		case "timestamp":
 			e.Timestamp()
 		case "mark":
-			Marks = append(Marks, o.ID)
+			if o.ID != 0 {
+				Marks = append(Marks, o.ID)
+			}
 		case "discard":
 			e.Discard()
 		default:
